@@ -601,3 +601,9 @@ HARMLESS += [
 MUTATIONS += [
     dict(id="C08-actor-pack-id-of-default", prop="C08", file=PK, old="                        (file, PackId::from(id), index)", new="                        (file, index.id, index)"),
 ]
+
+DMPF = "crates/core/src/commands/dump.rs"
+MUTATIONS += [
+    dict(id="C01-dump-blob-written-twice", prop="C01", file=DMPF, old="        write_blob(w, &data)?;\n    }\n    Ok(())", new="        write_blob(w, &data)?;\n        write_blob(w, &data)?;\n    }\n    Ok(())"),
+    dict(id="C01-dump-error-swallowed", prop="C01", file=DMPF, old="        write_blob(w, &data)?;\n    }\n    Ok(())", new="        _ = write_blob(w, &data);\n    }\n    Ok(())"),
+]
